@@ -18,6 +18,10 @@ def run(prop, tier):
     units += [dict(fn="unit_chip", op=o) for o in ("write_data", "read_data", "read_status", "ON_OFF", "START_LINE", "SET_PAGE", "SET_Y_ADDRESS")]
     units += [dict(fn="unit_route", kind="write"), dict(fn="unit_route", kind="read"), dict(fn="unit_write_outside", kind="outside-or-cs-none")]
     allr = common.run_units("contracts.lcd:unit_any", units, budget=1200)
+    # HD61202Controller.load_snapshot (controller_wrapper.py) installs chip state: a controller restored from a snapshot
+    # must still obey "one data write changes one cell" (shared with C16)
+    allr += common.run_units("contracts.snapshot:unit_any", [dict(fn="unit_lcd_after_restore", fill=f, chip=c, page=p)
+                                                             for f, c, p in (("blank", 0, 1), ("pattern", 1, 4))], budget=600)
     for r in allr:
         if r["unit"].get("fn") == "unit_pixels" and not any(r["unit"]["on"]):
             r["allow_empty"] = True
